@@ -485,3 +485,216 @@ theorem ITree.subs_mirror (t : ITree β) (hnd : t.indices.Nodup) :
     rw [← this]
 
 end AV
+
+namespace AV
+variable {β : Type}
+
+/-! ### look-ups by index in a tree with distinct indices -/
+
+theorem ITree.subs_idx_mem (t : ITree β) (p : Option Nat) (sq : ITree β × Option Nat) (h : sq ∈ t.subs p) :
+    sq.1.idx ∈ t.indices := by
+  rw [← ITree.subs_idx t p]
+  exact List.mem_map.mpr ⟨sq, h, rfl⟩
+
+theorem IKids.subs_idx_mem (ks : IKids β) (p : Nat) (sq : ITree β × Option Nat) (h : sq ∈ ks.subs p) :
+    sq.1.idx ∈ ks.indices := by
+  rw [← IKids.subs_idx ks p]
+  exact List.mem_map.mpr ⟨sq, h, rfl⟩
+
+mutual
+/-- `find?` returns the listed sub-tree with that index -/
+theorem ITree.find?_of_sub (t : ITree β) (p : Option Nat) (hnd : t.indices.Nodup) :
+    ∀ sq ∈ t.subs p, t.find? sq.1.idx = some sq.1 := by
+  match t with
+  | .node j v ks =>
+    intro sq hsq
+    simp only [ITree.subs, List.mem_cons] at hsq
+    simp only [ITree.indices, List.nodup_cons] at hnd
+    rcases hsq with h | h
+    · subst h; simp [ITree.find?, ITree.idx]
+    · have hmem := IKids.subs_idx_mem ks j sq h
+      have hne : j ≠ sq.1.idx := fun e => hnd.1 (e ▸ hmem)
+      simp only [ITree.find?, if_neg hne]
+      exact IKids.find?_of_sub ks j hnd.2 sq h
+theorem IKids.find?_of_sub (ks : IKids β) (p : Nat) (hnd : ks.indices.Nodup) :
+    ∀ sq ∈ ks.subs p, ks.find? sq.1.idx = some sq.1 := by
+  match ks with
+  | .nil => simp [IKids.subs]
+  | .cons none r =>
+    simp only [IKids.subs, IKids.find?, IKids.indices] at hnd ⊢
+    exact IKids.find?_of_sub r p hnd
+  | .cons (some t) r =>
+    intro sq hsq
+    simp only [IKids.subs, List.mem_append] at hsq
+    simp only [IKids.indices] at hnd
+    have hnd' := List.nodup_append.mp hnd
+    simp only [IKids.find?]
+    rcases hsq with h | h
+    · rw [ITree.find?_of_sub t (some p) hnd'.1 sq h]
+    · have hr := IKids.subs_idx_mem r p sq h
+      have hnt : sq.1.idx ∉ t.indices := fun hm => hnd'.2.2 _ hm _ hr rfl
+      rw [(ITree.find?_none t sq.1.idx).mpr hnt]
+      exact IKids.find?_of_sub r p hnd'.2.1 sq h
+end
+
+mutual
+theorem ITree.parentOf?_none (t : ITree β) (i : Nat) (h : i ∉ t.kids.indices) : t.parentOf? i = none := by
+  match t with
+  | .node j v ks => simp only [ITree.parentOf?]; exact IKids.parentOf?_none ks j 0 i (by simpa [ITree.kids] using h)
+theorem IKids.parentOf?_none (ks : IKids β) (p l i : Nat) (h : i ∉ ks.indices) : ks.parentOf? p l i = none := by
+  match ks with
+  | .nil => simp [IKids.parentOf?]
+  | .cons none r => simp only [IKids.parentOf?, IKids.indices] at h ⊢; exact IKids.parentOf?_none r p (l+1) i h
+  | .cons (some t) r =>
+    simp only [IKids.indices, List.mem_append, not_or] at h
+    simp only [IKids.parentOf?]
+    have hti : t.idx ≠ i := fun e => h.1 (e ▸ ITree.idx_mem_indices t)
+    rw [if_neg hti]
+    have hk : i ∉ t.kids.indices := by
+      cases t with
+      | node j v gk => simp only [ITree.indices, List.mem_cons, not_or] at h; simpa [ITree.kids] using h.1.2
+    rw [ITree.parentOf?_none t i hk]
+    exact IKids.parentOf?_none r p (l+1) i h.2
+end
+
+theorem ITree.kids_indices_sub (t : ITree β) : ∀ i ∈ t.kids.indices, i ∈ t.indices := by
+  cases t with
+  | node j v ks => intro i hi; simp [ITree.indices, ITree.kids] at hi ⊢; exact Or.inr hi
+
+/-- the root has no parent -/
+theorem ITree.parentOf?_root (t : ITree β) (hnd : t.indices.Nodup) : t.parentOf? t.idx = none := by
+  cases t with
+  | node j v ks =>
+    simp only [ITree.indices, List.nodup_cons] at hnd
+    exact ITree.parentOf?_none _ j (by simpa [ITree.kids] using hnd.1)
+
+theorem IKids.get?_mem_members (ks : IKids β) (l : Nat) (c : ITree β) (h : ks.get? l = some c) : c ∈ ks.members := by
+  match ks, l with
+  | .nil, _ => simp [IKids.get?] at h
+  | .cons none r, 0 => simp [IKids.get?] at h
+  | .cons (some t) r, 0 => simp only [IKids.get?, Option.some.injEq] at h; subst h; simp [IKids.members]
+  | .cons none r, l+1 => simp only [IKids.get?] at h; simp only [IKids.members]; exact IKids.get?_mem_members r l c h
+  | .cons (some t) r, l+1 =>
+    simp only [IKids.get?] at h; simp only [IKids.members, List.mem_cons]; exact Or.inr (IKids.get?_mem_members r l c h)
+
+theorem IKids.members_idx_mem (ks : IKids β) (c : ITree β) (h : c ∈ ks.members) : c.idx ∈ ks.indices := by
+  match ks with
+  | .nil => simp [IKids.members] at h
+  | .cons none r => simp only [IKids.members] at h; simp only [IKids.indices]; exact IKids.members_idx_mem r c h
+  | .cons (some t) r =>
+    simp only [IKids.members, List.mem_cons] at h
+    simp only [IKids.indices, List.mem_append]
+    rcases h with rfl | h
+    · exact Or.inl (ITree.idx_mem_indices _)
+    · exact Or.inr (IKids.members_idx_mem r c h)
+
+/-- a direct child at slot `k` is found with parent `p` and label `l0 + k` -/
+theorem IKids.parentOf?_direct (ks : IKids β) (p l0 k : Nat) (c : ITree β) (hnd : ks.indices.Nodup)
+    (h : ks.get? k = some c) : ks.parentOf? p l0 c.idx = some (p, l0 + k) := by
+  match ks, k with
+  | .nil, _ => simp [IKids.get?] at h
+  | .cons none r, 0 => simp [IKids.get?] at h
+  | .cons (some t) r, 0 =>
+    simp only [IKids.get?, Option.some.injEq] at h; subst h
+    simp [IKids.parentOf?]
+  | .cons none r, k+1 =>
+    simp only [IKids.get?] at h
+    simp only [IKids.indices] at hnd
+    simp only [IKids.parentOf?]
+    rw [IKids.parentOf?_direct r p (l0+1) k c hnd h]; congr 2; omega
+  | .cons (some t) r, k+1 =>
+    simp only [IKids.get?] at h
+    simp only [IKids.indices] at hnd
+    have hnd' := List.nodup_append.mp hnd
+    have hcr : c.idx ∈ r.indices := IKids.members_idx_mem r c (IKids.get?_mem_members r k c h)
+    have hct : c.idx ∉ t.indices := fun hm => hnd'.2.2 _ hm _ hcr rfl
+    simp only [IKids.parentOf?]
+    have hne : t.idx ≠ c.idx := fun e => hct (by rw [← e]; exact ITree.idx_mem_indices t)
+    rw [if_neg hne, ITree.parentOf?_none t c.idx (fun hm => hct (ITree.kids_indices_sub t _ hm))]
+    simp only
+    rw [IKids.parentOf?_direct r p (l0+1) k c hnd'.2.1 h]; congr 2; omega
+
+mutual
+/-- the child in slot `l` of a listed sub-tree `s` is found with parent `s` and label `l` -/
+theorem ITree.parentOf?_of_child (t : ITree β) (q0 : Option Nat) (hnd : t.indices.Nodup) :
+    ∀ sq ∈ t.subs q0, ∀ l c, sq.1.kids.get? l = some c → t.parentOf? c.idx = some (sq.1.idx, l) := by
+  match t with
+  | .node j v ks =>
+    intro sq hsq l c hc
+    simp only [ITree.subs, List.mem_cons] at hsq
+    simp only [ITree.indices, List.nodup_cons] at hnd
+    simp only [ITree.parentOf?]
+    rcases hsq with h | h
+    · subst h
+      simp only [ITree.kids] at hc
+      have := IKids.parentOf?_direct ks j 0 l c hnd.2 hc
+      simp only [Nat.zero_add] at this
+      exact this
+    · exact IKids.parentOf?_of_child ks j 0 hnd.2 sq h l c hc
+theorem IKids.parentOf?_of_child (ks : IKids β) (p l0 : Nat) (hnd : ks.indices.Nodup) :
+    ∀ sq ∈ ks.subs p, ∀ l c, sq.1.kids.get? l = some c → ks.parentOf? p l0 c.idx = some (sq.1.idx, l) := by
+  match ks with
+  | .nil => simp [IKids.subs]
+  | .cons none r =>
+    simp only [IKids.subs, IKids.parentOf?, IKids.indices] at hnd ⊢
+    exact IKids.parentOf?_of_child r p (l0+1) hnd
+  | .cons (some t) r =>
+    intro sq hsq l c hc
+    simp only [IKids.subs, List.mem_append] at hsq
+    simp only [IKids.indices] at hnd
+    have hnd' := List.nodup_append.mp hnd
+    simp only [IKids.parentOf?]
+    -- the child's index lies inside the sub-tree `sq.1`
+    have hcs : c.idx ∈ sq.1.kids.indices := IKids.members_idx_mem _ c (IKids.get?_mem_members _ l c hc)
+    rcases hsq with h | h
+    · -- inside t
+      have hsub : ∀ i ∈ sq.1.indices, i ∈ t.indices := by
+        intro i hi
+        have hd := ITree.subs_indices_sub t (some p) sq h
+        exact hd i hi
+      have hct : c.idx ∈ t.indices := hsub _ (ITree.kids_indices_sub sq.1 _ hcs)
+      have hne : t.idx ≠ c.idx := by
+        -- c is a proper descendant: its index differs from t's root index
+        intro e
+        have hpar := ITree.parentOf?_of_child t (some p) hnd'.1 sq h l c hc
+        cases t with
+        | node j v gk =>
+          simp only [ITree.indices, List.nodup_cons] at hnd'
+          have : c.idx ∈ gk.indices := by
+            by_contra hn
+            rw [ITree.parentOf?_none _ c.idx (by simpa [ITree.kids] using hn)] at hpar
+            cases hpar
+          simp only [ITree.idx] at e
+          exact hnd'.1.1 (e ▸ this)
+      rw [if_neg hne, ITree.parentOf?_of_child t (some p) hnd'.1 sq h l c hc]
+    · have hsub : ∀ i ∈ sq.1.indices, i ∈ r.indices := IKids.subs_indices_sub r p sq h
+      have hcr : c.idx ∈ r.indices := hsub _ (ITree.kids_indices_sub sq.1 _ hcs)
+      have hct : c.idx ∉ t.indices := fun hm => hnd'.2.2 _ hm _ hcr rfl
+      have hne : t.idx ≠ c.idx := fun e => hct (by rw [← e]; exact ITree.idx_mem_indices t)
+      rw [if_neg hne, ITree.parentOf?_none t c.idx (fun hm => hct (ITree.kids_indices_sub t _ hm))]
+      exact IKids.parentOf?_of_child r p (l0+1) hnd'.2.1 sq h l c hc
+theorem ITree.subs_indices_sub (t : ITree β) (q0 : Option Nat) :
+    ∀ sq ∈ t.subs q0, ∀ i ∈ sq.1.indices, i ∈ t.indices := by
+  match t with
+  | .node j v ks =>
+    intro sq hsq i hi
+    simp only [ITree.subs, List.mem_cons] at hsq
+    rcases hsq with h | h
+    · subst h; exact hi
+    · simp only [ITree.indices, List.mem_cons]
+      exact Or.inr (IKids.subs_indices_sub ks j sq h i hi)
+theorem IKids.subs_indices_sub (ks : IKids β) (p : Nat) :
+    ∀ sq ∈ ks.subs p, ∀ i ∈ sq.1.indices, i ∈ ks.indices := by
+  match ks with
+  | .nil => simp [IKids.subs]
+  | .cons none r => simp only [IKids.subs, IKids.indices]; exact IKids.subs_indices_sub r p
+  | .cons (some t) r =>
+    intro sq hsq i hi
+    simp only [IKids.subs, List.mem_append] at hsq
+    simp only [IKids.indices, List.mem_append]
+    rcases hsq with h | h
+    · exact Or.inl (ITree.subs_indices_sub t (some p) sq h i hi)
+    · exact Or.inr (IKids.subs_indices_sub r p sq h i hi)
+end
+
+end AV
